@@ -198,8 +198,10 @@ func (z *BigInt) updateInner(src *big.Int) {
 
 		// Set or unset the negative sentinel, according to the argument's sign.
 		// We use unsafe because (*big.Int).Sign is too complex and prevents
-		// this method from being inlined.
-		if (*intStruct)(unsafe.Pointer(src)).neg {
+		// this method from being inlined. A big.Int can carry the neg flag
+		// with a zero magnitude (GobDecode does not normalize it); math/big
+		// treats that as zero, and so must we: zero is never negative.
+		if (*intStruct)(unsafe.Pointer(src)).neg && len(bits) > 0 {
 			z._inner = negSentinel
 		} else {
 			z._inner = nil
